@@ -703,9 +703,60 @@ class CalloutFFDC(Unit):
             P.prove(json.loads(out.value) == {"Callout List FFDC": json.loads(raw)}, "reproduces the encoded JSON value")
 
 
+class CalloutFFDCAny(Unit):
+    """any payload: the text handed to json.loads is exactly the payload without its trailing NULs, decoded as UTF-8, and the
+    result is json.dumps of that value under the single key; anything else fails with the decoder's ordinary error"""
+    prop = "C20"
+    name = "udparsers.oe500._parse_callout_ffdc (any payload)"
+    target = UD + "_parse_callout_ffdc"
+
+    def inputs(self, S):
+        return dict(version=S.int("version", 0, 255), data=S.bytes("data", kind='memoryview'))
+
+    def check(self, P, inp, old, out):
+        if not P.symbolic:
+            import json
+            raw = bytes(inp['data']).rstrip(b'\0')
+            try:
+                want = {"Callout List FFDC": json.loads(raw.decode('utf8'))}
+            except ValueError:
+                want = None
+            if want is None:
+                P.prove(not out.returned and issubclass(out.exc_class, ValueError), "undecodable payload: ordinary error")
+            else:
+                P.prove(out.returned and json.loads(out.value) == want, "reproduces the encoded JSON value")
+            return
+        import z3
+        from pyvc.models import DumpedStr, rstrip_len_term, JsonSort
+        from pyvc.values import ufun, PyStr, OpaqueVal, zint
+        from pyvc.ops import as_sbytes
+        b = as_sbytes(inp['data'])
+        L = rstrip_len_term(b, b'\0')
+        q = z3.Int('q!spec')
+        P.prove(z3.And(L >= 0, L <= zint(b.ln), z3.Or(L == 0, b.at(L - 1) != 0),
+                       z3.ForAll([q], z3.Implies(z3.And(q >= L, q < zint(b.ln)), b.at(q) == 0))),
+                "the kept prefix is the payload without its trailing NUL bytes (and nothing else is dropped)")
+        text = ufun('decode_utf8', b.arr.sort(), z3.IntSort(), z3.IntSort(), PyStr)(b.arr, zint(b.off), L)
+        if not out.returned:
+            P.prove(out.exc_class is not None and issubclass(out.exc_class, ValueError),
+                    "fails only with the ordinary decoding errors (UnicodeDecodeError / JSONDecodeError)")
+            P.prove(Or(Not(ufun('utf8_valid', b.arr.sort(), z3.IntSort(), z3.IntSort(), z3.BoolSort())(b.arr, zint(b.off), L)),
+                       Not(ufun('json_valid', PyStr, z3.BoolSort())(text))),
+                    "fails only when the stripped payload is not UTF-8 or not JSON")
+            return
+        P.prove(isinstance(out.value, DumpedStr), "the result is json.dumps of a value")
+        if isinstance(out.value, DumpedStr):
+            v = out.value.value
+            P.prove(isinstance(v, dict) and list(v.keys()) == ["Callout List FFDC"], "single key 'Callout List FFDC'")
+            x = v.get("Callout List FFDC") if isinstance(v, dict) else None
+            P.prove(isinstance(x, OpaqueVal) and x.tag == 'json' and
+                    x.term.eq(ufun('json_loads', PyStr, JsonSort)(text)) if isinstance(x, OpaqueVal) else False,
+                    "its value is json.loads of exactly the stripped, UTF-8 decoded payload")
+
+
 def Unsupported_():
     from pyvc.values import Unsupported
     return Unsupported("bounded-only unit")
 
 
-UNITS = [AttnDesc, ChipDesc, SigDesc, RegData, GetSignature, SrcE500, SigList, ScratchRegs, RegDump, CalloutFFDC]
+UNITS = [AttnDesc, ChipDesc, SigDesc, RegData, GetSignature, SrcE500, SigList, ScratchRegs, RegDump, CalloutFFDCAny, CalloutFFDC]
